@@ -11,7 +11,6 @@ package server
 // 15 s, and the ids in the stream's first occurrences are increasing.
 
 import (
-	"context"
 	"fmt"
 	"testing"
 	"time"
@@ -48,9 +47,7 @@ func TestVerifC18Promotion(t *testing.T) {
 			}
 			for i := 0; i < 2; i++ {
 				name := fmt.Sprintf("c18p-%d-%d", cur, i)
-				ctx, cancel := context.WithTimeout(context.Background(), 10*time.Second)
-				_, err := s.api.CreateStream(ctx, &client.CreateStreamRequest{Subject: name, Name: name, ReplicationFactor: 1, Partitions: 1})
-				cancel()
+				err := vCreateStream(s, &client.CreateStreamRequest{Subject: name, Name: name, ReplicationFactor: 1, Partitions: 1})
 				if err != nil {
 					t.Fatalf("create stream: %v", err)
 				}
